@@ -82,7 +82,7 @@ def _ast_to_ir(node, klong, var_refs):
 
         if arity == 1 and op_char == '-':
             arg = node.args
-            if isinstance(arg, list):
+            if type(arg) is list:
                 arg = arg[0]
             child = _ast_to_ir(arg, klong, var_refs)
             if child is None:
